@@ -2,7 +2,8 @@ import IwModel.Model.Bytes
 import IwModel.Gen.C18
 /-!
 Model of `src/utils/iwpool.c`: a chain of heap units with a bump pointer (`usiz` of `asiz` bytes used in the
-current unit, everything rounded up to 8), reference count, owned user data and attached child pools.
+current unit, everything rounded up to 8), reference count, owned user data, attached child pools with their own
+reference counts, and the orphans a destroyed parent leaves behind.
 An allocation result is the canonical address (index of the unit counted from the oldest, byte offset).
 Follows the code after the fixes of `iwpool_destroy`, `_parent_remove_child`, `iwpool_copy_cstring_array`
 and `iwpool_split_string`.
@@ -98,21 +99,50 @@ def splitAlloc (p : Pool) (hay : Bytes) (toks : List Bytes) : Pool :=
 def copyArrAlloc (p : Pool) (v : List Bytes) : Pool :=
   if v.isEmpty then p else v.foldl (fun q t => (alloc q (t.length + 1)).1) (alloc p (8 * (v.length + 1))).1
 
-/-- a parent pool with the children attached to it, most recently attached first (`parent->children` chain);
-each child carries the harness's handle -/
+/-- entry with handle `h` of a handle-indexed list of pools -/
+def findIn (l : List (Nat × Pool)) (h : Nat) : Option Pool := (l.find? (·.1 = h)).map (·.2)
+
+/-- replace the pool of handle `h` -/
+def setIn (l : List (Nat × Pool)) (h : Nat) (c : Pool) : List (Nat × Pool) :=
+  l.map fun (p : Nat × Pool) => if p.1 = h then (p.1, c) else (p.1, p.2)
+
+/-- `q` with one reference fewer -/
+def unref (q : Pool) : Pool := { q with refs := q.refs - 1 }
+
+/-- a parent pool (`main`) with the children attached to it, most recently attached first (`parent->children`
+chain); each child carries the harness's handle.  `orphans`: former children whose parent was destroyed while
+somebody held a further reference on them (`c->parent = 0; iwpool_destroy(c)` only dropped one reference): parentless
+pools owned by the remaining reference holders.  `gone`: the main pool has been freed (then `kids = []`, no user
+data; only the orphans can still be used). -/
 structure Sys where
   main : Pool
   kids : List (Nat × Pool) := []
   next : Nat := 0
+  orphans : List (Nat × Pool) := []
+  gone : Bool := false
   deriving Repr
 
 /-- `iwpool_create_attach` / `iwpool_create_empty_attach` -/
 def attach (s : Sys) (c : Pool) : Sys × Nat := ({ s with kids := (s.next, c) :: s.kids, next := s.next + 1 }, s.next)
 
-def kid (s : Sys) (h : Nat) : Option Pool := (s.kids.find? (·.1 = h)).map (·.2)
+/-- attached child with handle `h` -/
+def kid (s : Sys) (h : Nat) : Option Pool := findIn s.kids h
 
-def setKid (s : Sys) (h : Nat) (c : Pool) : Sys :=
-  { s with kids := s.kids.map fun (i, q) => if i = h then (i, c) else (i, q) }
+/-- orphan with handle `h` -/
+def orphan (s : Sys) (h : Nat) : Option Pool := findIn s.orphans h
+
+/-- the pool a child handle denotes: an attached child or an orphan -/
+def lookup (s : Sys) (h : Nat) : Option Pool := (kid s h).or (orphan s h)
+
+def setKid (s : Sys) (h : Nat) (c : Pool) : Sys := { s with kids := setIn s.kids h c }
+
+def setOrphan (s : Sys) (h : Nat) (c : Pool) : Sys := { s with orphans := setIn s.orphans h c }
+
+/-- store `c` under child handle `h` (attached child first, else orphan) -/
+def setAny (s : Sys) (h : Nat) (c : Pool) : Sys :=
+  match kid s h with
+  | some _ => setKid s h c
+  | none => setOrphan s h c
 
 /-- `iwpool_user_data_set(pool, data, free_fn)`: the previous user data goes to its free function -/
 def udSet (p : Pool) (id : Nat) : Pool × List Nat := ({ p with ud := some id }, p.ud.toList)
@@ -120,22 +150,47 @@ def udSet (p : Pool) (id : Nat) : Pool × List Nat := ({ p with ud := some id },
 /-- `iwpool_user_data_detach` (+ the caller clears the slot): the user data is the caller's again -/
 def udDetach (p : Pool) : Pool × List Nat := ({ p with ud := none }, p.ud.toList)
 
-/-- `iwpool_user_data_set` on an attached child -/
+/-- `iwpool_user_data_set` on a child handle (attached child or orphan) -/
 def kidUdSet (s : Sys) (h : Nat) (id : Nat) : Option (Sys × List Nat) :=
-  (kid s h).map fun q => (setKid s h (udSet q id).1, (udSet q id).2)
+  (lookup s h).map fun q => (setAny s h (udSet q id).1, (udSet q id).2)
 
 /-- `iwpool_ref` -/
 def ref (s : Sys) : Sys := { s with main := { s.main with refs := s.main.refs + 1 } }
 
-/-- `iwpool_destroy(child)`: unlinked from the parent (siblings stay), its user data freed -/
-def destroyKid (s : Sys) (h : Nat) : Sys × List Nat :=
-  match kid s h with
-  | none => (s, [])
-  | some c => ({ s with kids := s.kids.filter (·.1 ≠ h) }, c.ud.toList)
+/-- `iwpool_ref` on a child handle: the new state and the count returned -/
+def refKid (s : Sys) (h : Nat) : Option (Sys × Nat) :=
+  (lookup s h).map fun q => (setAny s h { q with refs := q.refs + 1 }, q.refs + 1)
 
-/-- `iwpool_destroy(parent)`: `none` when other references remain; else the user data freed, children first -/
+/-- `iwpool_destroy` of the childless pool with handle `h` in `l`: `--numrefs > 0` → only the count drops (`false`, the
+pool stays where it is); else it leaves the list and its user data goes to the free function (`true`) -/
+def destroyIn (l : List (Nat × Pool)) (h : Nat) : Option (List (Nat × Pool) × Bool × List Nat) :=
+  (findIn l h).map fun c =>
+    if c.refs > 1 then (setIn l h (unref c), false, [])
+    else (l.filter (fun p => decide (p.1 ≠ h)), true, c.ud.toList)
+
+/-- `iwpool_destroy(child handle)`: (state, `none` = no such handle / the bool returned, user data freed).
+An attached child that goes is unlinked from the parent (siblings stay); with references left it stays attached. -/
+def destroyKid (s : Sys) (h : Nat) : Sys × Option Bool × List Nat :=
+  match destroyIn s.kids h with
+  | some (k, b, f) => ({ s with kids := k }, some b, f)
+  | none =>
+    match destroyIn s.orphans h with
+    | some (o, b, f) => ({ s with orphans := o }, some b, f)
+    | none => (s, none, [])
+
+/-- children that survive the destroy of their parent: `c->parent = 0; iwpool_destroy(c)` took one of several references -/
+def survivors (kids : List (Nat × Pool)) : List (Nat × Pool) :=
+  (kids.filter fun p => decide (1 < p.2.refs)).map fun p => (p.1, unref p.2)
+
+/-- user data freed by the children loop of `iwpool_destroy(parent)`: children on their last reference, in chain order -/
+def kidsFreed (kids : List (Nat × Pool)) : List Nat := (kids.filter fun p => !decide (1 < p.2.refs)).flatMap (·.2.ud.toList)
+
+/-- `iwpool_destroy(parent)`: `none` when other references remain (only the count drops); else every attached child is
+detached and destroyed once - those on their last reference are freed (user data first), the others become orphans with
+one reference fewer and keep their user data - then the pool's own user data is freed -/
 def destroy (s : Sys) : Sys × Option (List Nat) :=
   if s.main.refs > 1 then ({ s with main := { s.main with refs := s.main.refs - 1 } }, none)
-  else (s, some (s.kids.flatMap (·.2.ud.toList) ++ s.main.ud.toList))
+  else ({ s with main := { s.main with ud := none }, kids := [], orphans := survivors s.kids ++ s.orphans, gone := true },
+        some (kidsFreed s.kids ++ s.main.ud.toList))
 
 end IwModel.Pool
